@@ -195,4 +195,25 @@ def evaluate(dep, program):
         for kk in ("judged_ops", "path:file", "path:cache", "path:in_memory"):
             if kk in scratch:
                 probes[kk] = probes.get(kk, 0) + scratch[kk]
+    # "n_linear_samples INDEPENDENT draws": no two tasks may share a stream, no draw block may repeat
+    fps = {}
+    for pl in dep.pools:
+        for m in getattr(pl, "map_calls", []):
+            for i, t in enumerate(m["tasks"]):
+                fp = t.get("fp")
+                if fp is None:
+                    continue
+                if fp in fps:
+                    v.append(Violation(PROPERTY, "C03.independence", "C03:child-generators:same-stream-given-to-two-tasks", "map %s task %d starts in the state of %s" % (m["key"], i, fps[fp])))
+                fps.setdefault(fp, "%s task %d" % (m["key"], i))
+    seen = {}
+    for d in dep.record.draws:
+        if d["method"] != "multivariate_normal" or d["gen"] == "astar":
+            continue
+        k2 = tape.digest_obj(np.asarray(d["result"]))
+        if k2 in seen:
+            v.append(Violation(PROPERTY, "C03.independence", "C03:linear-draws:identical-draw-block-repeated", "draw on %s equals draw on %s" % (d["gen"], seen[k2])))
+            break
+        seen[k2] = d["gen"]
+    probes["draw_blocks_checked_for_repeats"] = len(seen)
     return v, probes
